@@ -119,7 +119,8 @@ def operations(rng, reserved=None):
         lambda: "%s + (%s + %s)" % (par(o()), par(o()), par(o())),
         lambda: "%s += %s" % (rng.choice(["x", "o.p", "o[k]", "o[i++]", "f().p", "o.p.q", "this.v", "o[a + b]", "o[-k]", "o[+k]", "(o[-k])", "o[`${k}`]", "o[k ? 'a' : 'b']",
                                            "o[k.p]", "o[typeof k]", "o[!k]", "o[~k]", "o[k - 1]", "o[(k, 1)]", "o[k?.p]", "o.p[-k].q", "o[k][-i]", "o[-1]", "o['lit']", "o[f()].p[g()]",
-                                           "f()[g(a)]", "o.p[f()]", "g(a)[k + 1]", "f()[o.p]", "o.q.r[g(b)]", "f().p[g(a)]", "(a, o)[f()]", "o[f()][g(a)]"]), o()),
+                                           "f()[g(a)]", "o.p[f()]", "g(a)[k + 1]", "f()[o.p]", "o.q.r[g(b)]", "f().p[g(a)]", "(a, o)[f()]", "o[f()][g(a)]",
+                                           "((o.p))", "(((x)))", "((o[k]))", "((o).p)", "((f().p))"]), o()),
         lambda: "`%s${%s}%s`" % (rng.choice(["", "p"]), o(), rng.choice(["", "q"])),
         lambda: "`${%s}-${%s}`" % (o(), o()),
         lambda: "%s.%s(%s)" % (rpar(rng.choice(RECEIVERS)), rng.choice(METHODS), rng.choice(ARG_LISTS)),
